@@ -128,6 +128,21 @@ func c17SharedOps() []c17op {
 	return ops
 }
 
+// zones of the concurrent time-bound workload, loaded once before any
+// goroutine starts
+var c17Zones = func() []*time.Location {
+	var out []*time.Location
+	for _, n := range []string{"America/New_York", "Europe/Berlin", "Asia/Kolkata", "Pacific/Auckland", "America/Sao_Paulo"} {
+		if l, err := time.LoadLocation(n); err == nil {
+			out = append(out, l)
+		}
+	}
+	if len(out) == 0 {
+		out = append(out, time.FixedZone("X", 3600))
+	}
+	return out
+}()
+
 type c17indep struct {
 	texts  []string
 	params []map[string]interface{}
@@ -240,6 +255,51 @@ func c17IndepOps(in *c17indep) []c17op {
 				return fmt.Sprintf("results changed after later scans: %q %q %q were %q %q %q", part, bad, whole, k1, k2, k3)
 			}
 			return fmt.Sprint(k1, err1, k2, err2, k3, err3)
+		}},
+		{"indep.TimeBounds-zoned", func(_ *c17shared, a int) string {
+			// time bounds written as strings (RFC3339 with and without fraction
+			// and offset, date-time, date only) resolved in a named zone, many
+			// different literals and zones in flight at once: through
+			// ToTimeLiteral, ConditionExpr with a zone-aware valuer, and a
+			// parsed statement with tz() that is reduced and asked for its range
+			loc := c17Zones[a%len(c17Zones)]
+			base := time.Date(1990+a%40, time.Month(1+a%12), 1+a%28, a%24, (a*7)%60, (a*13)%60, (a%5)*250000000, time.UTC)
+			lits := []string{
+				base.Format(time.RFC3339Nano),
+				base.Add(36 * time.Hour).Format(time.RFC3339),
+				base.In(loc).Format(time.RFC3339Nano),
+				base.Format("2006-01-02 15:04:05.999999999"),
+				base.Add(90 * time.Minute).Format("2006-01-02 15:04:05"),
+				base.Format("2006-01-02"),
+			}
+			var sb strings.Builder
+			for _, l := range lits {
+				tl, err := (&influxql.StringLiteral{Val: l}).ToTimeLiteral(loc)
+				if err != nil {
+					sb.WriteString("ERR " + err.Error() + ";")
+				} else {
+					sb.WriteString(tl.Val.UTC().Format(time.RFC3339Nano) + ";")
+				}
+			}
+			v := &influxql.NowValuer{Now: fixedNow, Location: loc}
+			for k := 0; k+1 < len(lits); k++ {
+				cond, err := influxql.ParseExpr("time >= '" + lits[k] + "' AND time < '" + lits[k+1] + "' AND host = 'h" + strconv.Itoa(a%7) + "'")
+				if err != nil {
+					sb.WriteString("ERR " + err.Error())
+					continue
+				}
+				e, tr, err := influxql.ConditionExpr(cond, v)
+				sb.WriteString(fmt.Sprint(e, tr.Min.UTC(), tr.Max.UTC(), err, ";"))
+			}
+			st, err := influxql.ParseStatement("SELECT mean(v) FROM m WHERE time >= '" + lits[a%len(lits)] + "' AND time <= '" + lits[(a+1)%len(lits)] + "' GROUP BY time(1h) TZ('" + loc.String() + "')")
+			if err != nil {
+				return sb.String() + "ERR " + err.Error()
+			}
+			sel := st.(*influxql.SelectStatement)
+			red := sel.Reduce(v)
+			_, tr, err := influxql.ConditionExpr(red.Condition, v)
+			sb.WriteString(fmt.Sprint(red.String(), tr.Min.UTC(), tr.Max.UTC(), err))
+			return sb.String()
 		}},
 		{"indep.Lookup", func(_ *c17shared, a int) string {
 			return fmt.Sprint(influxql.Lookup(gen.Keywords[a%len(gen.Keywords)]), influxql.Lookup(in.strs[a%len(in.strs)]))
@@ -639,7 +699,7 @@ var raceFrameRe = regexp.MustCompile(`(?m)^\s+(\S+)\(\)\s*$`)
 
 func checkC17(c *Ctx) (string, bool, []string) {
 	r := c.R
-	rule := "rounds of 64 goroutines (GOMAXPROCS 16) released together, each running a PRNG-ordered list of operations: 70% on 6 shared ASTs parsed once by the main goroutine (String, Clone, WalkFunc, Eval, EvalType, Reduce, ConditionExpr, RewriteFields against a shared mapper, ColumnNames, field names, privileges, measurements, expression helpers), 30% independent (ParseQuery / ParseStatement / ParseExpr / Language.Parse, parsing with parameters, QuoteIdent / QuoteString / IdentNeedsQuotes, FormatDuration / ParseDuration, Sanitize, Lookup). The binary is built with -race; every result is compared with its sequential twin. Non-trivial = every executed operation; distinct = (operation, input) pairs with a sequential twin."
+	rule := "rounds of 64 goroutines (GOMAXPROCS 16) released together, each running a PRNG-ordered list of operations: 70% on 6 shared ASTs parsed once by the main goroutine (String, Clone, WalkFunc, Eval, EvalType, Reduce, ConditionExpr, RewriteFields against a shared mapper, ColumnNames, field names, privileges, measurements, expression helpers), 30% independent (ParseQuery / ParseStatement / ParseExpr / Language.Parse, parsing with parameters, QuoteIdent / QuoteString / IdentNeedsQuotes, FormatDuration / ParseDuration, Sanitize, Lookup, string time bounds of every spelling resolved in five named zones through ToTimeLiteral / ConditionExpr / a reduced statement with tz()). The binary is built with -race; every result is compared with its sequential twin. Non-trivial = every executed operation; distinct = (operation, input) pairs with a sequential twin."
 	assume := []string{"GroupByInterval / GroupByOffset (memo write) and all in-place rewrites are excluded by the property itself", "the race detector reports accesses unordered by happens-before in the observed runs; interleavings actually observed are summarised by the overlap matrix"}
 	if c.Replay != nil {
 		r.Inconclusive("C17 findings are schedules; re-run ./check C17 quick (the replay file holds the race report or mismatch)")
